@@ -6,6 +6,7 @@ func init() {
 	vRegister("H_RoundTrip", H_RoundTrip)
 	vRegister("H_UnpackActionBytes", H_UnpackActionBytes)
 	vRegister("H_UnpackOperationBytes", H_UnpackOperationBytes)
+	vRegister("H_UnpackConcrete", H_UnpackConcrete)
 }
 
 // documented action names and their kernel constants (README / seccomp.yml, linux/seccomp.h)
@@ -139,6 +140,53 @@ func H_UnpackOperationBytes() {
 		vAssert(o == "untouched", "C14.reject_leaves_op")
 		vCover("cover.unpack_op_bytes.rejected")
 	}
+}
+
+// H_UnpackConcrete: both parsers on ONE concrete string (parameter "s"): near
+// misses of the documented names that neither string encoding reaches -
+// numbers in several bases, surrounding white space, punctuation, non-ASCII
+// look-alikes, very long input. Everything is concrete, so whatever library
+// function the parser uses is simply executed. Not the deciding step for "all
+// strings"; a complement to it.
+func H_UnpackConcrete() {
+	s := vParamStr("s")
+	ls := vLower(s)
+	a := Action(0x12345678)
+	var err error
+	code := vRun(func() { err = a.Unpack(s) })
+	vAssert(code == 0, "C14.unpack_nopanic")
+	if code != 0 {
+		return
+	}
+	known := false
+	for _, d := range vDocActions {
+		if ls == d.name {
+			known = true
+			vAssert(err == nil && uint32(a) == d.val, "C14.unpack_value")
+		}
+	}
+	vAssert((err == nil) == known, "C14.unpack_iff")
+	if err != nil {
+		vAssert(uint32(a) == 0x12345678, "C14.reject_leaves_value")
+	}
+	o := Operation("untouched")
+	code = vRun(func() { err = o.Unpack(s) })
+	vAssert(code == 0, "C14.unpack_nopanic")
+	if code != 0 {
+		return
+	}
+	known = false
+	for _, d := range vDocOperations {
+		if ls == vLower(d) {
+			known = true
+			vAssert(err == nil && string(o) == d, "C14.unpack_op_value@"+d)
+		}
+	}
+	vAssert((err == nil) == known, "C14.unpack_op_iff")
+	if err != nil {
+		vAssert(o == "untouched", "C14.reject_leaves_op")
+	}
+	vCover("cover.unpack_concrete")
 }
 
 // H_RoundTrip: parsing the printed form of any named value gives the value
